@@ -278,6 +278,9 @@ namespace optree {
                 DictSetItem(dict, ListGetItem(other_keys, i), py::int_(i));
             }
             if (!DictKeysEqual(expected_keys, dict)) [[unlikely]] {
+                // NOTE: sort a copy, `other_keys` is the key list owned by the other treespec.
+                other_keys = py::reinterpret_steal<py::list>(
+                    PyList_GetSlice(other_keys.ptr(), 0, ListGetSize(other_keys)));
                 TotalOrderSort(other_keys);
                 const auto [missing_keys, extra_keys] = DictKeysDifference(expected_keys, dict);
                 std::ostringstream key_difference_sstream{};
